@@ -100,7 +100,16 @@ func c10Profile(plan chainPlan) shape.Profile {
 			lt = append(lt, w.ty)
 		}
 	}
+	// maps whose KEY is the substituted type: alone, with a substituted
+	// value, nested, inside slices / pointers / maps
+	durKey := []string{"DurKeyStr", "DurKeyInts", "DurKeyDur", "DurKeyDurs", "DurKeyStrDur", "[]DurKeyInt", "*DurKeyStr", "map[string]DurKeyInt", "DurKeyInt"}
+	if plan.spec.has("dursub") {
+		// in front (with weight) for chains that substitute the type
+		lt = append(append([]string{}, durKey[:5]...), lt...)
+		lt = append(lt, durKey...)
+	}
 	lt = append(lt, shape.AllLeafTypes...)
+	lt = append(lt, durKey...)
 	if !known(keyTypesubAddr) {
 		lt = append(lt, "*[]time.Duration", "**time.Duration", "*map[string]time.Duration")
 	}
